@@ -395,6 +395,11 @@ struct event_base {
 
 	/** "Prepare" and "check" watchers. */
 	struct evwatch_list watchers[EVWATCH_MAX];
+	/** The watcher whose callback the loop is running, or NULL once that
+	 * watcher has freed itself; in the latter case watcher_next is the
+	 * watcher the loop must continue with. */
+	struct evwatch *watcher_running;
+	struct evwatch *watcher_next;
 };
 
 struct event_config_entry {
